@@ -267,6 +267,13 @@ class Model:
     def loop_invariant(self, ex, st, node, ordinal):
         return None
 
+    def augassign(self, ex, st, node, a, b):
+        """-> the new value of an augmented assignment `a op= b` (in-place semantics are the model's business), or NotImplemented"""
+        return NotImplemented
+
+    def binop(self, ex, st, op, a, b):
+        return NotImplemented
+
     def listcomp(self, ex, st, node):
         """-> list of Paths for a list comprehension, or NotImplemented"""
         return NotImplemented
@@ -497,6 +504,12 @@ class Executor:
         return out
 
     def binop(self, st, op, a, b):
+        r = self.model.binop(self, st, op, a, b)
+        if r is not NotImplemented:
+            return r
+        return self._binop(st, op, a, b)
+
+    def _binop(self, st, op, a, b):
         if isinstance(a, PyConst) and isinstance(b, PyConst):
             import operator
             f = {ast.Add: operator.add, ast.Sub: operator.sub, ast.Mult: operator.mul}.get(type(op))
@@ -865,7 +878,10 @@ class Executor:
         out = []
         outs, raised = self.ev_list(st, [load, s.value])
         for s2, (a, b) in outs:
-            out += self.assign(s2, s.target, self.binop(s2, s.op, a, b))
+            r = self.model.augassign(self, s2, s, a, b)
+            if r is NotImplemented:
+                r = self.binop(s2, s.op, a, b)
+            out += self.assign(s2, s.target, r)
         return out + raised
 
     def st_AnnAssign(self, st, s):
